@@ -1,1 +1,11 @@
--- proofs root
+/- root of all proof modules (what `setup.sh` builds; each check builds only its own closure) -/
+import AtsProofs.C01b
+import AtsProofs.C03
+import AtsProofs.C05
+import AtsProofs.C09
+import AtsProofs.C11b
+import AtsProofs.C12
+import AtsProofs.C13
+import AtsProofs.C14
+import AtsProofs.C16b
+import AtsProofs.Claims.C08
